@@ -19,7 +19,7 @@
    the lines mean is not modelled: how many bytes a readLine consumes, whether the line decodes,
    and the ACT's tunnel / confirm flags are carried by the label (any values), the bytes of the
    lines the relay writes itself are carried by the label.
-   Merged into one step (justified in DESIGN 5/C17 and 10.30): resetToStandby's four tunnel
+   Merged into one step (justified in DESIGN 5/C17 and 10.34): resetToStandby's four tunnel
    statements (it runs under the relayStatus compare-and-swap); a pump's Read, its status check,
    addHandshakeBuffer (under bufferLock) or the channel send that follows; the two loads and the send
    of sendStringToClient / ToServer and of one round of flushHandshakeBuffer.  Outside the model: the
